@@ -7,6 +7,7 @@
 //! trusted: R15 (deep slice): mark_outbound_htlc_removed: the per-HTLC block of the search loop verbatim as a function of that HTLC; Sha256 is the external_body wrapper sha256 (R8); PaymentHash equality is structural; error strings dropped
 //! trusted: R15: update_add_htlc: the message-level tests (zero amount literal in the pattern, the others captured) and the two state-update statements verbatim; the channel-state pre-checks (early Err returns) and the call of validate_update_add_htlc (receiver tests proved in u01k) are dropped and not claimed; the stored onion (InboundHTLCResolution::Pending) is opaque; error strings dropped
 //! trusted: R15 (deep slice): commitment_signed_update_monitor: the body of the loop that promotes inbound HTLCs verbatim as a function of one HTLC (InboundHTLCResolution::clone external_body returning an equal value; R16)
+//! trusted: R15 (deep slices): remove_uncommitted_htlcs_and_mark_paused: the body of the inbound `retain` closure, the statement adjusting next_counterparty_htlc_id (operator captured) and the body of the outbound loop, verbatim; the resets of announcement / closing state around them are dropped and not claimed
 //! assume: HTLC amounts and balances <= 21e18 msat; |value_to_self_msat_diff| <= 4e18 while it is accumulated; the resulting balance lies between 0 and the channel value (representation invariant of the channel)
 //! plemma: C01 lemma_each_pending_htlc_exactly_once: an HTLC is never both an output of the next commitment and already credited to the claimer's balance, and a successfully claimed HTLC that is no longer an output is always credited (for both commitments)
 use vstd::prelude::*;
@@ -370,6 +371,56 @@ impl SentHTLCId { #[verifier::external_body] pub fn from_source(s: &HTLCSource) 
     htlc.state = OutboundHTLCState::AwaitingRemovedRemoteRevoke(reason);
 //@with
     htlc.state = OutboundHTLCState::Committed; let _ = reason;
+//@end
+
+// ---- disconnection: uncommitted updates of the peer are forgotten so that it can send them again with the same ids (three deep R15 slices of remove_uncommitted_htlcs_and_mark_paused) ----
+//@extract lightning/src/ln/channel.rs :: impl FundedChannel :: fn remove_uncommitted_htlcs_and_mark_paused
+//@slice R15
+    self.context.pending_inbound_htlcs.retain(|htlc| { $body:any });
+//@with
+    fn inbound_htlc_kept_on_disconnect(htlc: &InboundHTLCOutput, inbound_drop_count_: u64) -> (bool, u64) {
+        let mut inbound_drop_count = inbound_drop_count_;
+        let __kept = { $body };
+        (__kept, inbound_drop_count)
+    }
+//@ret r
+//@requires
+    inbound_drop_count_ < u64::MAX,
+//@ensures P C01,C12 on-disconnection-exactly-the-inbound-htlcs-the-peer-announced-but-never-committed-are-dropped-and-counted
+    r.0 == !(htlc.state is RemoteAnnounced),
+    r.1 == inbound_drop_count_ + (if htlc.state is RemoteAnnounced { 1int } else { 0int }),
+//@mutant half_committed_inbound_htlc_dropped_on_disconnect
+    InboundHTLCState::AwaitingRemoteRevokeToAnnounce(_)|InboundHTLCState::AwaitingAnnouncedRemoteRevoke(_) => { true },
+//@with
+    InboundHTLCState::AwaitingRemoteRevokeToAnnounce(_)|InboundHTLCState::AwaitingAnnouncedRemoteRevoke(_) => { false },
+//@end
+pub struct DiscCtx { pub next_counterparty_htlc_id: u64 }
+pub struct DiscChannel { pub context: DiscCtx }
+impl DiscChannel {
+//@extract lightning/src/ln/channel.rs :: impl FundedChannel :: fn remove_uncommitted_htlcs_and_mark_paused
+//@slice R15
+    }); self.context.next_counterparty_htlc_id $dec:seq; if let Some((_, update_state)) = self.context.pending_update_fee {
+//@with
+    fn give_back_ids_of_dropped_htlcs(&mut self, inbound_drop_count: u64) { self.context.next_counterparty_htlc_id $dec; }
+//@requires
+    old(self).context.next_counterparty_htlc_id >= inbound_drop_count,
+//@ensures P C01,C12 the-ids-of-the-dropped-htlcs-are-given-back-so-the-peer-can-reuse-them
+    final(self).context.next_counterparty_htlc_id == old(self).context.next_counterparty_htlc_id - inbound_drop_count,
+//@end
+}
+//@extract lightning/src/ln/channel.rs :: impl FundedChannel :: fn remove_uncommitted_htlcs_and_mark_paused
+//@slice R15
+    for htlc in self.context.pending_outbound_htlcs.iter_mut() { $body:any } self.context.channel_state.set_peer_disconnected();
+//@with
+    fn outbound_htlc_on_disconnect(htlc: &mut OutboundHTLCOutput) { $body }
+//@ensures P C01 on-disconnection-a-removal-the-peer-sent-but-never-committed-is-rolled-back-to-committed
+    old(htlc).state is RemoteRemoved ==> final(htlc).state is Committed,
+    !(old(htlc).state is RemoteRemoved) ==> final(htlc).state == old(htlc).state,
+    final(htlc).amount_msat == old(htlc).amount_msat && final(htlc).htlc_id == old(htlc).htlc_id,
+//@mutant uncommitted_removal_survives_the_disconnection
+    htlc.state = OutboundHTLCState::Committed;
+//@with
+    
 //@end
 }
 fn main() {}
